@@ -332,6 +332,46 @@ Proof.
   - cbn. intros Q; repeat (destruct Q as [Q|Q]; [discriminate Q|]); exact Q.
 Qed.
 
+(** Non-vacuity of the midpoint collapse of a boundary edge: a strip of three triangles 1 -> 2 -> 3, 4 -> 5 -> 6 and
+    7 -> 8 -> 9 glued along 2 | 4 and 3 | 7.  The edge l = 1 is on the boundary, its two other sides a = 2 and b = 3 are
+    interior, and the five darts l, a, b, beta2 a = 4, beta2 b = 7 are distinct and non-null -- the premises of
+    C15_collapse_midpoint_boundary_edge_topology / _keeps_wf2; the conclusion then says that 4 and 7 end glued together. *)
+Definition c15_strip (i d : N) : N :=
+  if i =? 1 then (if d =? 1 then 2 else if d =? 2 then 3 else if d =? 3 then 1 else if d =? 4 then 5 else if d =? 5 then 6 else if d =? 6 then 4
+                  else if d =? 7 then 8 else if d =? 8 then 9 else if d =? 9 then 7 else 0)
+  else if i =? 0 then (if d =? 2 then 1 else if d =? 3 then 2 else if d =? 1 then 3 else if d =? 5 then 4 else if d =? 6 then 5 else if d =? 4 then 6
+                  else if d =? 8 then 7 else if d =? 9 then 8 else if d =? 7 then 9 else 0)
+  else if i =? 2 then (if d =? 2 then 4 else if d =? 4 then 2 else if d =? 3 then 7 else if d =? 7 then 3 else 0)
+  else 0.
+Example C15_midpoint_boundary_premises :
+  let f := c15_strip in let A2 := f 2 2 in let B2 := f 2 3 in
+  NoDup [1; 2; 3; A2; B2] /\ ~ In 0 [1; 2; 3; A2; B2] /\ f 1 1 = 2 /\ f 1 2 = 3 /\ f 1 3 = 1 /\ f 2 1 = 0.
+Proof.
+  cbv zeta. repeat split; try discriminate; try reflexivity.
+  - cbn. repeat (constructor; [cbn; intros Q; repeat (destruct Q as [Q|Q]; [discriminate Q|]); exact Q|]). constructor.
+  - cbn. intros Q; repeat (destruct Q as [Q|Q]; [discriminate Q|]); exact Q.
+Qed.
+
+From HC Require Import Map2.Wf2Proofs Map2.InsertTopo Map2.CollapseBase.
+(** Collapse towards an end point of an INTERIOR edge (l | r): on every store, whenever the driver returns normally its
+    run is -- as far as images and removal flags are concerned -- exactly three steps in sequence: the 2-unsew of the
+    edge, the half-cell on the right (b1r -> r -> b0r), the half-cell on the left (b0l -> l -> b1l), each of which
+    returned normally; before them the driver only reads ([s_same]: the stores agree on every variable) and after them
+    it only writes data ([topo_eq]: same images, same flags).  The theorems on the 2-unsew (C04_two_unsew_topology) and
+    on the half-cells (C15_collapse_to_base_{boundary_removes_cell,inner_merges_cell} and their wf2 companions) thus
+    apply to the driver's own intermediate stores w3 .. w6.  A driver that reordered the half-cells, skipped the unsew,
+    or edited images after the half-cells would not satisfy this statement. *)
+Theorem C15_collapse_to_base_interior_edge_is_three_steps `{Sig} : forall E n ks b0l l b1l b0r r b1r c w cnt vid w' cnt',
+  r <> 0 ->
+  run E (collapse_edge_to_base n ks b0l l b1l b0r r b1r) c w cnt = (Done vid, w', cnt') ->
+  exists w3 c3 w4 c4 w5 c5 w6 c6, s_same w w3 /\
+    run E (two_unsew n ks l) c w3 c3 = (Done tt, w4, c4) /\
+    run E (collapse_halfcell_to_base n ks b1r r b0r) c w4 c4 = (Done tt, w5, c5) /\
+    run E (collapse_halfcell_to_base n ks b0l l b1l) c w5 c5 = (Done tt, w6, c6) /\
+    topo_eq w6 w'.
+Proof. exact to_base_interior_split. Qed.
+Print Assumptions C15_collapse_to_base_interior_edge_is_three_steps.
+
 (** The two half-cell routines of the edge collapse -- the programs the four collapse theorems above are about -- are,
     verbatim, what tools/tr_kern.py regenerates from remeshing/collapse.rs on every run: an edit of either routine
     changes Map2/GenKern.v and this theorem stops compiling. *)
